@@ -252,6 +252,19 @@ def check_middleware(which, acc):
                         if not isinstance(b, MiddlewareErrorBlock) or not isinstance(b.error, InvalidNameError):
                             acc.violation({"oracle": "invalid_name_becomes_error_block"}, {"case": case, "observed": type(b).__name__, "expected": "MiddlewareErrorBlock(InvalidNameError)"})
                             continue
+                        try:
+                            import copy as _copy
+
+                            _copy.deepcopy(b)
+                            text_out = bibtexparser.write_string(out)
+                            if not isinstance(text_out, str) or "@article{k, ...}" not in text_out:
+                                raise ValueError("failed block not written verbatim")
+                        except Exception as ex:
+                            acc.violation(
+                                {"oracle": "error_block_can_be_copied_and_written", "exception": type(ex).__name__},
+                                {"case": case, "observed": f"{type(ex).__name__}: {str(ex)[:200]}", "expected": "deepcopy and write_string succeed on a library holding the error block"},
+                            )
+                            continue
                         inner = b.ignore_error_block
                         okk = (
                             isinstance(inner, Entry)
